@@ -55,6 +55,7 @@ def gen_case(rng, tier, i):
         for f in spec['fields'][1:]:
             f[1], f[2] = round(float(rng.uniform(0.05, 0.4)), 4), round(float(rng.uniform(0.05, 0.4)), 4)
         classes.append('vignetting-factors')
+    stale = bool(rng.random() < 0.2)
     if len(spec['fields']) >= 3 and rng.random() < 0.4:
         # fields added in non-ascending order (the order of the lens's field list is part of its state)
         f = spec['fields']
@@ -88,7 +89,7 @@ def gen_case(rng, tier, i):
     rr = np.sqrt(rng.uniform(0, 1, n)); th = rng.uniform(0, 2 * np.pi, n)
     return dict(spec=spec, info=info, classes=classes, hist=hist, Px=(rr * np.cos(th)).tolist(), Py=(rr * np.sin(th)).tolist(),
                 Hy=float(rng.choice([0.0, 1.0, rng.uniform(0, 1)])), perm=rng.permutation(n).tolist(),
-                nr=int(rng.integers(2, 5)), seed=int(rng.integers(1 << 30)))
+                nr=int(rng.integers(2, 5)), seed=int(rng.integers(1 << 30)), stale_solve=stale)
 
 
 # ---------------------------------------------------------------------------
@@ -292,6 +293,20 @@ def check_case(case, rec):
     lens = L.build(spec)
     classes = case['classes']
     rec.cls(*(classes or ['plain']))
+    if case.get('stale_solve'):
+        # a lens carrying an image-surface solve (and a radius pickup) whose source was edited WITHOUT update(): the solve
+        # and the pickup are out of date on purpose - only update() / image_solve() may bring them up to date, no
+        # tracing or analysis call
+        rec.cls('stale-solve-and-pickup')
+        K_ = len(lens.surface_group.surfaces) - 1
+        ya_, ua_ = lens.paraxial.marginal_ray()
+        if np.all(np.isfinite(ya_)) and abs(float(np.ravel(ua_)[K_ - 1])) > 1e-9:
+            lens.solves.add('marginal_ray_height', K_, 0.0)
+            curved = [k_ for k_ in range(1, K_) if np.isfinite(lens.surface_group.radii[k_])]
+            if len(curved) >= 2:
+                lens.pickups.add(curved[0], 'radius', curved[1], scale=-1.0, offset=0.0)
+                lens.update()
+            lens.set_radius(float(lens.surface_group.radii[curved[0]]) * 1.07, curved[0]) if curved else None
     vig = 'vignetting-factors' in classes
     base = deep_snapshot(lens)
     seen_results = {}
